@@ -128,12 +128,14 @@ class Eval:
             return self.bind(pat["sub"], val, env)
         if k == "Leaf":
             v = self.force(val)
+            ok = True
             for s in pat["subs"]:
                 item = Unknown("tuple field")
                 if isinstance(v, Tup) and s["idx"] < len(v.items):
                     item = v.items[s["idx"]]
-                self.bind(s["pat"], item, env)
-            return True
+                if not self.bind(s["pat"], item, env):
+                    ok = False
+            return ok
         if k == "Variant" and pat.get("adt") == OPTION:
             v = self.force(val)
             if not isinstance(v, Opt):
@@ -149,6 +151,10 @@ class Eval:
             v = self.force(val)
             if isinstance(v, Bool):
                 return (pat["value"] == "true") == v.b
+            if isinstance(v, Unknown) and pat["value"] in ("true", "false"):
+                # an opaque Boolean: a free variable keyed by where it came from
+                b = self.var(("cond", "opaque bool %s" % v.why), "opaque Boolean")
+                return (pat["value"] == "true") == b
             raise Unclassified("constant pattern on unmodelled value")
         raise Unclassified("pattern kind %s" % k)
 
@@ -206,6 +212,9 @@ class Eval:
             return Unknown("literal")
         if k == "Unary" and e["op"] == "Not":
             return Bool(not self.truth(e["e"], env))
+        if k == "Binary" and e["op"] in ("BitOr", "BitAnd") and e.get("ty") == "bool":
+            a, b = self.truth(e["l"], env), self.truth(e["r"], env)
+            return Bool((a or b) if e["op"] == "BitOr" else (a and b))
         if k == "LogicalOp":
             l = self.truth(e["l"], env)
             if e["op"] == "And":
@@ -321,6 +330,47 @@ class Eval:
                     return recv if keep.b else Opt(False)
                 raise Unclassified("Option::filter with opaque predicate")
             return Unknown("option method %s" % m)
+        # --- Boolean helpers
+        if cal in ("core::bool::<impl bool>::then", "core::bool::<impl bool>::then_some"):
+            cond = self.force(self.ev(args[0], env))
+            if not isinstance(cond, Bool):
+                cond = Bool(self.truth(args[0], env))
+            if not cond.b:
+                return Opt(False)
+            if cal.endswith("then_some"):
+                return Opt(True, Thunk(args[1], env))
+            clo = self.ev(args[1], env)
+            return Opt(True, Thunk2(lambda: self.apply(clo, [])))
+        if cal in ("core::slice::<impl [T]>::iter", "core::iter::traits::collect::IntoIterator::into_iter",
+                   "core::iter::traits::iterator::Iterator::copied", "core::iter::traits::iterator::Iterator::cloned",
+                   "core::array::<impl [T; N]>::iter", "core::iter::traits::iterator::Iterator::by_ref") and args:
+            v = self.force(self.ev(args[0], env))
+            if isinstance(v, Vec):
+                return v
+            return Unknown("iterator")
+        if cal in ("core::iter::traits::iterator::Iterator::any", "core::iter::traits::iterator::Iterator::all") and len(args) == 2:
+            v = self.force(self.ev(args[0], env))
+            if not isinstance(v, Vec):
+                raise Unclassified("any/all over an iterator that is not a literal array")
+            clo = self.ev(args[1], env)
+            want = cal.endswith("::any")
+            for it in v.items:
+                r = self.force(self.apply(clo, [it]))
+                if not isinstance(r, Bool):
+                    raise Unclassified("any/all predicate is not Boolean")
+                if r.b == want:
+                    return Bool(want)
+            return Bool(not want)
+        if cal == "core::iter::traits::iterator::Iterator::map" and len(args) == 2:
+            v = self.force(self.ev(args[0], env))
+            if isinstance(v, Vec):
+                clo = self.ev(args[1], env)
+                return Vec([Thunk2((lambda it: (lambda: self.apply(clo, [it])))(it)) for it in v.items])
+        if cal == "core::ops::bit::Not::not" and len(args) == 1:
+            return Bool(not self.truth(args[0], env))
+        if cal in ("core::ops::bit::BitOr::bitor", "core::ops::bit::BitAnd::bitand") and len(args) == 2:
+            a, b = self.truth(args[0], env), self.truth(args[1], env)
+            return Bool((a or b) if cal.endswith("bitor") else (a and b))
         # --- builders / primitives
         if res == "corgi::array::Array::with_children":
             base = self.force(self.ev(args[0], env))
